@@ -11,6 +11,15 @@
 //!   a 5th element `1` in the case makes the top-level siblings a StaticVec instead of a tuple
 //!   path   : bytes (valid UTF-8)
 //!
+//! case  : (2 base routes pmap [1])   pmap = ((name (value ..)) ..)
+//!   drives the REAL path builder (static_routes.rs): for every generated flat route, with
+//!   Static(base) in front the way the router registers it, `StaticPath::new(segs)
+//!   .into_paths(Some(pmap))`, once on the route as generated and once on each of its
+//!   expand_optionals() variants; every built path is fed back to RouteDefs::match_route.
+//!   observation : (base flat ((unexpanded (per-expansion ..)) ..))
+//!     unexpanded : built      per-expansion : (segments built)
+//!     built : (-1) the builder panicked | ((path match) ..)
+//!
 //! observation : (base flat expanded match nested)
 //!   base     : () | (bytes)                       as returned by generate_routes()
 //!   flat     : ((pseg ..) ..)                     generate_routes(), in order
@@ -278,7 +287,87 @@ fn chain_and_params(m: AnyNestedMatch, first_id: u16) -> (Sexp, Sexp) {
     (Lst(chain), params)
 }
 
+fn run_build(c: &Sexp) -> Sexp {
+    use leptos_router::static_routes::{StaticParamsMap, StaticPath};
+    let base = c.at(1);
+    let routes = c.at(2);
+    let mut pmap = StaticParamsMap::new();
+    for kv in c.at(3).list() {
+        pmap.insert(text(kv.at(0)), kv.at(1).list().iter().map(text).collect());
+    }
+    let first_id = raw_id(RouteMatchId::new_from_route_id()).wrapping_add(1);
+    let children = if c.at(4).num() == 1 {
+        build_static_vec(routes)
+    } else {
+        build_siblings(routes)
+    };
+    let defs = match base.list().first() {
+        None => RouteDefs::new(children.clone()),
+        Some(b) => RouteDefs::new_with_base(children.clone(), text(b)),
+    };
+    let (gbase, flat) = {
+        let (b, rs) = defs.generate_routes();
+        (
+            b.map(|s| s.to_string()),
+            rs.into_iter().map(|g| g.segments).collect::<Vec<_>>(),
+        )
+    };
+    let s_base = match &gbase {
+        None => Lst(vec![]),
+        Some(b) => Lst(vec![Sexp::from_str(b)]),
+    };
+    let s_flat = Lst(flat
+        .iter()
+        .map(|r| Lst(r.iter().map(pseg).collect()))
+        .collect());
+    let build = |segs: &Vec<PathSegment>| -> Sexp {
+        // the router registers [Static(base)] ++ segments (nested_router.rs / flat_router.rs)
+        let full: Vec<PathSegment> = gbase
+            .iter()
+            .map(|b| PathSegment::Static(b.clone().into()))
+            .chain(segs.iter().cloned())
+            .collect();
+        let built = catch_unwind(AssertUnwindSafe(|| {
+            StaticPath::new(full).into_paths(Some(pmap.clone()))
+        }));
+        match built {
+            Err(_) => Lst(vec![Num(-1)]),
+            Ok(paths) => Lst(paths
+                .iter()
+                .map(|rp| {
+                    let path: &str = rp.as_ref();
+                    let m = match catch_unwind(AssertUnwindSafe(|| {
+                        defs.match_route(path).map(|m| chain_and_params(m, first_id))
+                    })) {
+                        Err(_) => Lst(vec![Num(-1)]),
+                        Ok(None) => Lst(vec![]),
+                        Ok(Some((chain, params))) => Lst(vec![Num(1), chain, params]),
+                    };
+                    Lst(vec![Sexp::from_str(path), m])
+                })
+                .collect()),
+        }
+    };
+    let per_route = Lst(flat
+        .iter()
+        .map(|r| {
+            Lst(vec![
+                build(r),
+                Lst(r
+                    .expand_optionals()
+                    .iter()
+                    .map(|e| Lst(vec![Lst(e.iter().map(pseg).collect()), build(e)]))
+                    .collect()),
+            ])
+        })
+        .collect());
+    Lst(vec![s_base, s_flat, per_route])
+}
+
 pub fn run(c: &Sexp) -> Sexp {
+    if c.at(0).num() == 2 {
+        return run_build(c);
+    }
     let base = c.at(1);
     let routes = c.at(2);
     let path = text(c.at(3));
